@@ -47,6 +47,7 @@ def gen_case(rng, tier):
     prof["memory"] = rng.choice([0, 0, 0.5])  # some configuration values are kept in memory (stores and loads among the pure ops)
     if prof["memory"]:
         prof["w_pure"] = max(prof["w_pure"], 3)
+    prof["next_iv"] = rng.choice([0, 0, 0.3])  # loop bodies that compute %i + %step themselves, also inside nested regions
     prof["state_loops"] = rng.choice([0, 0, 0.5])  # hand-threaded loops that already carry an accelerator's state ...
     prof["head_launch"] = rng.choice([0, 0.5])  # ... and first launch the configuration they were entered with
     ast = G.AccfgGen(rng, prof).program()
